@@ -256,6 +256,10 @@ func (c01Driver) Run(cc core.Case) core.Outcome {
 	o.Key = tape.Hash64(core.MarshalCase(c))
 	texts := c.texts()
 	disk := map[string]string{}
+	if !fsim.SeamComplete() {
+		o.Count("probe.fs_seam_incomplete_disk_left_empty", 1)
+		c = &c01Case{Scenario: c.Scenario, Bad: c.Bad, Corpus: c.Corpus, Ops: c.Ops, Sched: c.Sched, Options: c.Options, Rendered: c.Rendered}
+	}
 	for _, n := range c.OnDisk {
 		if t, ok := texts[n]; ok {
 			disk["lib/"+n] = t
